@@ -56,6 +56,25 @@ NextTerminals(C, ch) == {NextSym(C.G, it) : it \in ch[Len(ch)]} \cap Terms(C.G)
 \* can the input end after w ?
 CanEnd(C, ch, w, root) == Accepts(C, ch, w, root)
 
+(* ---- recognition over a token lattice ------------------------------------ *)
+\* lat = [start, end, edges]; nodes are integers start..end, edges <<i, t, j>> with i < j.
+\* S is a sequence indexed by node + 1 (sets of nodes not reached stay empty).
+RECURSIVE ELat(_, _, _, _, _)
+ELat(C, lat, root, k, S) ==
+  IF k > lat.end THEN S
+  ELSE LET cur0 == S[k + 1] \cup (IF k = lat.start /\ root \in C.PP THEN {<<root, 0, k>>} ELSE {})
+       IN IF cur0 = {} THEN ELat(C, lat, root, k + 1, S)
+          ELSE LET closed == EClose(C, S, k, cur0)
+                   out == {e \in lat.edges : e[1] = k}
+                   S1 == [n \in 1 .. Len(S) |->
+                            IF n = k + 1 THEN closed
+                            ELSE S[n] \cup UNION {Scan(C.G, closed, e[2]) : e \in {x \in out : x[3] + 1 = n}}]
+               IN ELat(C, lat, root, k + 1, S1)
+
+ChartLat(C, lat, root) == ELat(C, lat, root, lat.start, [n \in 1 .. (lat.end + 1) |-> {}])
+SentenceLat(C, lat, root) ==
+  lat.start <= lat.end /\ <<root, RhsLen(C.G, root), lat.start>> \in ChartLat(C, lat, root)[lat.end + 1]
+
 \* the longest prefix lengths k such that w[1..k] is a sentence (for partial parse)
 SentencePrefixes(C, w, root) ==
   LET ch == Chart(C, w, root)
